@@ -80,6 +80,7 @@ _name_piece = st.one_of(
     st.integers(0, 0x3FFF).map(lambda o: struct.pack("!H", 0xC000 | o)),
     st.just(b"\x00"), st.just(b"\x00"),
     st.integers(64, 255).map(lambda n: bytes([n])),
+    st.integers(64, 70).map(lambda n: bytes([n]) + b"a" * n),
     st.sampled_from([b"\x00\x01\x00\x01", b"\x00\x10\x00\x01", b"\x00\x05\x00\x01", b"\x00\x06\x00\x01", b"\x00\x0f\x00\x01",
                      b"\x00\x21\x00\x01", b"\x00\x41\x00\x01", b"\x00\xff\x00\xff"]),
     st.tuples(st.sampled_from([1, 2, 5, 6, 12, 13, 15, 16, 28, 33, 35, 41, 65, 99]), st.integers(0, 12),
@@ -310,15 +311,16 @@ def check_msg(d, ctx):
             ctx.fail("roundtrip:" + what, "in: %.600r\nout: %.600r" % (m, back))
 
 
-def check_bytes(b: bytes, ctx, cls: str):
+def check_bytes(b: bytes, ctx, cls: str, use_alarm=True, record_case=True):
     import struct as _s
     from mitmproxy import dns
     if len(b) >= 12 and any(b[4:12]):
         ctx.nt(("bytes", b), "bytes:" + cls)
     else:
         ctx.cls("bytes-trivial:" + cls)
-    old = signal.signal(signal.SIGALRM, _on_alarm)
-    signal.alarm(CASE_ALARM_S)
+    if use_alarm:
+        old = signal.signal(signal.SIGALRM, _on_alarm)
+        signal.alarm(CASE_ALARM_S)
     try:
         try:
             m = dns.DNSMessage.unpack(b)
@@ -327,6 +329,10 @@ def check_bytes(b: bytes, ctx, cls: str):
             return
         except _Timeout:
             ctx.fail("nontermination:unpack", "unpack did not return within %d s" % CASE_ALARM_S)
+            return
+        except RecursionError as e:
+            # 1000 nested pointer hops need >= 2000 octets of distinct pointers; on a shorter input it must be a loop
+            ctx.crash(e, "decode-raises-%s" % ("long-input" if len(b) >= 1500 else "short-input"))
             return
         except Exception as e:
             ctx.crash(e, "decode-raises")
@@ -375,8 +381,9 @@ def check_bytes(b: bytes, ctx, cls: str):
             else:
                 ctx.fail("reencode-unstable:" + what, "first: %.600r\nsecond: %.600r" % (m, m2))
     finally:
-        signal.alarm(0)
-        signal.signal(signal.SIGALRM, old)
+        if use_alarm:
+            signal.alarm(0)
+            signal.signal(signal.SIGALRM, old)
 
 
 def case_bytes(case) -> bytes:
@@ -430,8 +437,15 @@ def _atheris(ctx, runs: int):
             with open(os.path.join(corpus, "seed%d" % i), "wb") as f:
                 f.write(s)
         env = dict(os.environ, C25_FINDS=finds)
+        dic = os.path.join(work, "dns.dict")
+        with open(dic, "w") as f:
+            for tok in [b"\xc0\x0c", b"\xc0\x0d", b"\xc0", b"xn--", b"\x04xn--", b"\x00\x01\x00\x01", b"\x00\x05\x00\x01",
+                        b"\x00\x06\x00\x01", b"\x00\x0f\x00\x01", b"\x00\x10\x00\x01", b"\x00\x21\x00\x01", b"\x00\x41\x00\x01",
+                        b"\x03www", b"\x00\x00\x00\x3c\x00\x02\xc0\x0c", b".", b"\x3f", b"\x40", b"xn--mnchen-3ya", b"xn--a"]:
+                f.write('"' + "".join("\\x%02x" % c for c in tok) + '"\n')
         cmd = [sys.executable, "-W", "ignore", target, "-runs=%d" % runs, "-seed=%d" % (ctx.shard_seed % (1 << 31) or 1),
-               "-max_len=600", "-timeout=30", "-rss_limit_mb=4096", "-print_final_stats=1", corpus]
+               "-max_len=600", "-timeout=30", "-rss_limit_mb=4096", "-print_final_stats=1", "-dict=" + dic,
+               "-artifact_prefix=" + work + "/", corpus]
         p = subprocess.run(cmd, env=env, stdout=subprocess.PIPE, stderr=subprocess.STDOUT, timeout=3 * 3600)
         out = p.stdout.decode("latin-1")
         execs = 0
